@@ -3,6 +3,7 @@ import LcmProofs.SpecRefine
 import LcmProps.C06
 import LcmProps.Examples
 import LcmProofs.UtilityBody
+import LcmProofs.InterpBounds
 namespace Lcm
 
 /-! # C01 — `solve()` returns the exact backward-induction (Bellman) solution on the grid
@@ -252,5 +253,22 @@ example : ∀ f ∈ Ex.consModelW.functions, "utility" ∉ f.args := by decide +
 #guard utilOf (withUtility Ex.consModelW Ex.divTerm) Ex.consParams (toEnv [("w", 1), ("c", 1), ("d", 1)]) == some (9/4)
 #guard Ex.flat (solve (withUtility Ex.consModelW Ex.divTerm) Ex.consParams) == Ex.flat (solve Ex.consModelW Ex.consParams)
 #guard Ex.flat (solve Ex.consModelW Ex.consParams) == Ex.flat (solve Ex.consModel Ex.consParams)
+
+/-- the continuation value that enters the Bellman maximand (`interpExt` on next period's array, entries in `Rat ∪ {-inf}`):
+whenever it is defined and the next state lies inside the grid of every continuous axis, it lies within the range of the
+finite next-period values - interpolation inside the grid never invents a value above the best or below the worst stored
+one, for any number of continuous states. (Outside the grid the outermost segment is continued and the bound fails.) -/
+theorem C01_continuation_value_within_range_inside_grid (t : Tensor Ext) (cs : List Rat) (L U : Rat)
+    (hlen : cs.length = t.shape.length) (h2 : ∀ n ∈ t.shape, 2 ≤ n)
+    (hin : ∀ p ∈ cs.zip t.shape, 0 ≤ p.1 ∧ p.1 ≤ (p.2 : Rat) - 1)
+    (hb : ∀ idx v, InBounds t.shape idx → t.get idx = .fin v → L ≤ v ∧ v ≤ U)
+    (q : Rat) (hq : interpExt t cs = some q) : L ≤ q ∧ q ≤ U :=
+  interpExt_bounds t cs L U hlen h2 hin hb q hq
+
+-- defined and inside: within range; outside: beyond the largest stored value; next to -inf: undefined
+example : let t : Tensor Ext := { shape := [2], get := fun idx => .fin (1 + 2 * (idx.headD 0 : Nat)) }
+    interpExt t [1/2] = some 2 ∧ interpExt t [2] = some 5 := by decide +kernel
+example : let t : Tensor Ext := { shape := [2], get := fun idx => if idx.headD 0 = 0 then .ninf else .fin 1 }
+    interpExt t [1/2] = none := by decide +kernel
 
 end Lcm
